@@ -3,7 +3,8 @@ import CashewsVerif.Model.Basic
 C16 — model of what a transaction block does when backend commands fail.
 
 Mirrors `cashews/wrapper/transaction.py` (`TransactionContextDecorator.__aenter__/__aexit__/close` with the object's own
-state `_tx` / `_inner` — a context object may be kept by the program and entered again, nested in itself: `BodyCmd.block`,
+state (`_started` / `_inner`, kept per running transaction since 73da870 = D51; ONE task has one running transaction, for
+which they are the `tx` / `inner` fields of `CtxObj`) — a context object may be kept by the program and entered again, nested in itself: `BodyCmd.block`,
 `Transaction.wrap/commit/rollback/_rollback`) and `cashews/backends/transaction.py`
 (`TransactionBackend.set/incr/get/delete/expire/exists/set_many/delete_many/commit/rollback`,
 `LockTransactionBackend._lock_updates/_unlock_updates/set/incr/delete/expire/set_many/delete_many/commit/rollback`) for ONE task (the
@@ -531,9 +532,15 @@ def gatherUnlock (cfg : Cfg) (b : Nat) : List Nat → M Unit
         | .err e => (.err e, w2)
         | .ok _ => (r2, w2)
 
-/-- `_unlock_updates`: `locks = self._locks; self._locks = set(); if locks: await asyncio.gather(...)` -/
-def unlockUpdates (cfg : Cfg) (t : TxB) : M Unit :=
-  gatherUnlock cfg t.bid (unlockOrder cfg.uprio t.bid t.locks)
+/-- how many `unlock` commands have been issued so far -/
+def unlocksSoFar (log : List Ev) : Nat := (log.filter fun ev => match ev.cmd with | .unlock _ => true | _ => false).length
+
+/-- `_unlock_updates`: `locks = self._locks; self._locks = set(); if locks: await asyncio.gather(...)`.  `cfg.uprio` lists the
+iteration orders of the `_locks` sets gather after gather (one transaction may run several: explicit `tx.commit()` /
+`tx.rollback()` in the body, then `__aexit__`): this gather's order starts after the unlocks issued so far (any order is allowed:
+what `uprio` does not mention comes last) -/
+def unlockUpdates (cfg : Cfg) (t : TxB) : M Unit := fun w =>
+  gatherUnlock cfg t.bid (unlockOrder ((cfg.uprio.drop (unlocksSoFar w.log)).take t.locks.length) t.bid t.locks) w
 
 /-- `LockTransactionBackend.commit`: `try: await super().commit()  finally: await self._unlock_updates()`.
 (`TransactionBackend.commit` of fast mode is the same with an always-empty lock set.) -/
@@ -592,6 +599,34 @@ def txRollback (cfg : Cfg) (ts : List TxB) : M Unit := fun w =>
   | (.err e, w1) => (.err e, w1)
 
 /-! ### the block -/
+
+/-- what an explicit `tx.commit()` / `tx.rollback()` in the middle of a body leaves of the transaction's wrappers: every
+`TransactionBackend` object stays in `Transaction._backends` (it keeps serving the block) with an empty buffer
+(`_clear_local_storage()`) and an empty `_locks` set (`_unlock_updates`: `locks = self._locks; self._locks = set()` comes
+BEFORE the unlock commands, so it is empty whether they fail or not).  (A commit that fails half-way does not clear the
+buffer of the failing backend — but it raises, the exception leaves the body, and the rollback of `__aexit__` never looks
+at a buffer; what it looks at, `_locks`, is empty.  With the OLD `_rollback` loop, `rbAll = false`, a backend the loop never
+reached would keep its `_locks`: explicit commit / rollback are modelled for the loop of /repo only.) -/
+def resetBacks (ts : List TxB) : List TxB := ts.map fun t => { t with ov := [], del := [], locks := [] }
+
+/-- `await tx.commit()` in the body (`tx` = what `async with … as tx` gave: the running `Transaction`): `Transaction.commit`
+over all wrapped backends — the buffered writes are applied, the locks released —, then the block goes on inside the same
+transaction with empty buffers and no locks -/
+def txCommitNow (cfg : Cfg) : M Unit := fun w =>
+  match w.ctx with
+  | none => (.ok (), w)
+  | some tx =>
+    match commitLoop cfg tx.backs w with
+    | (r, w1) => (r, { w1 with ctx := w1.ctx.map fun t => { t with backs := resetBacks t.backs } })
+
+/-- `await tx.rollback()` in the body: `Transaction.rollback` over all wrapped backends — buffers dropped, locks released —,
+then the block goes on inside the same transaction -/
+def txRollbackNow (cfg : Cfg) : M Unit := fun w =>
+  match w.ctx with
+  | none => (.ok (), w)
+  | some tx =>
+    match txRollback cfg tx.backs w with
+    | (r, w1) => (r, { w1 with ctx := w1.ctx.map fun t => { t with backs := resetBacks t.backs } })
 
 /-- the fields of shared context object `i` -/
 def objOf (w : FWorld) (i : Nat) : CtxObj := (alLookup w.objs i).getD ⟨false, 0⟩
@@ -671,6 +706,8 @@ inductive BodyCmd where
   | block (o : Option Nat) (body : List BodyCmd)   -- a nested `async with`: on shared object `o` (possibly the very object
                                                    --  of an enclosing block) or on an object of its own (`none`; also a call
                                                    --  of a function decorated with `@cache.transaction(…)`)
+  | commit                  -- `await tx.commit()` in the middle of the body
+  | rollback                -- `await tx.rollback()` in the middle of the body
   deriving Repr
 
 def emit (r : Reply) : M Unit := modW fun w => { w with outs := w.outs ++ [r] }
@@ -688,10 +725,35 @@ def bodyStep (cfg : Cfg) : BodyCmd → M Unit
   | .expire b k ttl => do let r ← txExpire cfg b k ttl; emit r
   | .setIf b k v ttl ex => do let r ← txSetIf cfg b k v ttl ex; emit r
   | .block o body => blockOn cfg o (runBody cfg body)
+  | .commit => txCommitNow cfg
+  | .rollback => txRollbackNow cfg
 
 def runBody (cfg : Cfg) : List BodyCmd → M Unit
   | [] => M.pure ()
   | c :: rest => M.bind (bodyStep cfg c) fun _ => runBody cfg rest
+end
+
+mutual
+/-- does the command (at any depth) call `tx.commit()`? -/
+def BodyCmd.hasCommit : BodyCmd → Bool
+  | .commit => true
+  | .block _ body => hasCommitL body
+  | _ => false
+def hasCommitL : List BodyCmd → Bool
+  | [] => false
+  | c :: rest => c.hasCommit || hasCommitL rest
+end
+
+mutual
+/-- does the command (at any depth) call `tx.commit()` or `tx.rollback()`? -/
+def BodyCmd.hasExplicit : BodyCmd → Bool
+  | .commit => true
+  | .rollback => true
+  | .block _ body => hasExplicitL body
+  | _ => false
+def hasExplicitL : List BodyCmd → Bool
+  | [] => false
+  | c :: rest => c.hasExplicit || hasExplicitL rest
 end
 
 /-- the world the body of the outermost block starts in: `__aenter__` has put a fresh `Transaction` into the context variable -/
